@@ -413,6 +413,7 @@ VRepeat(r) ==
     IN  IF \E k \in 2..N : r.results[k] # r.results[1] THEN
             Rej("C14 the same query on the same document gave different results depending on the history",
                 <<CHOOSE k \in 2..N : r.results[k] # r.results[1]>>)
+        ELSE IF Has(r, "nospec") THEN Acc             \* (a document too deep to be shipped: coincidence only)
         ELSE IF cv.v = "accept" /\ ~DcSegs(Parse(r.q, FALSE).v, r.doc, reg) THEN
             LET nl == Find(Parse(r.q, FALSE).v, r.doc, reg)
             IN  IF r.results[1] # <<"ok", [k \in 1..Len(nl) |-> nl[k].loc]>> THEN Rej("nodelist differs", <<>>) ELSE Acc
